@@ -335,3 +335,35 @@ def compile_outcomes(req):
         except BaseException as e:   # noqa
             out.append({"text": t, "outcome": "raised", "exc": type(e).__name__})
     return out
+
+
+@register("model_probe")
+def model_probe(req):
+    """construct the REAL pydantic models with exemplar values; report what the field holds afterwards"""
+    from pyab_experiment.data_structures import syntax_tree as st
+    out = []
+    for case in req["cases"]:
+        cls, field, v = case["cls"], case["field"], case["value"]
+        if v == "<Identifier x>":
+            v = st.Identifier(name="x")
+        elif isinstance(v, dict) and "__int__" in v:
+            v = int(v["__int__"])
+        base = {"TerminalPredicate": dict(left_term=1, logical_operator=st.LogicalOperatorEnum.EQ, right_term=1),
+                "ExperimentGroup": dict(group_definition="g", group_weight=1), "Identifier": dict(name="n")}[cls]
+        kw = dict(base)
+        kw[field] = v
+        try:
+            got = getattr(getattr(st, cls)(**kw), field)
+            same_type = type(got) is type(v)
+            try:
+                same_val = bool(got == v) if same_type else False
+            except Exception:   # noqa
+                same_val = False
+            if isinstance(v, list) and isinstance(got, (tuple, list)):
+                items_same = len(got) == len(v) and all(type(a) is type(b) and a == b for a, b in zip(got, v))
+                out.append({"outcome": "container", "type": type(got).__name__, "items_same": items_same})
+            else:
+                out.append({"outcome": "same" if (same_type and same_val) else "coerced", "type": type(got).__name__, "repr": repr(got)[:60]})
+        except BaseException as e:   # noqa
+            out.append({"outcome": "error", "exc": type(e).__name__})
+    return out
